@@ -8,6 +8,7 @@ import RsModel.Lemmas.ProvLines
 import RsModel.Lemmas.ColdStrip
 import RsModel.Lemmas.ProvRepl
 import RsModel.Lemmas.ProvNest
+import RsModel.Lemmas.ProvWarm
 /-!
 # C04 — mappings point to where the text really came from
 (leaf level: an OriginalSource maps every token to its own position; the composites are tied by correspondence)
@@ -346,5 +347,35 @@ example : (Src.replace (Src.concat (.cons (.replace (.orig [97, 59, 98] [102]) [
       [⟨0, 2, [89, 90], none, 2⟩]).NestWD
     (fun n => if n = [102] then some [97, 59, 98] else if n = [103] then some [99] else none) := by
   simp [Src.NestWD, SrcList.NestWDs]
+
+/-! ## warm caches -/
+
+/-- **C04 for the second `map()` of a tree with CachedSource nodes** (the two-call history `map(); map()`, columns = true):
+CachedSource nodes at any depth and in any number (none beneath a ReplaceSource — K5) over a tree of raw / OriginalSource leaves,
+ConcatSource and ReplaceSource nodes; the first `get_map` ran on cold caches.  Every byte `i` of `source()` that the *second* map —
+built by replaying the maps the first call stored — resolves to `o2` is resolved by the first map to an `o1` with the same file name
+(each map through its own `sources`), the same line and the same column; and that file, with the content the first map lists for
+it, holds the byte as a surviving original byte at exactly that line and that column plus `d` — or the byte is generated text.
+Chain: `c10_map_twice` ∘ `c04_cold_caches` ∘ `c04_nested_map_bytes`. -/
+theorem c04_second_map_bytes (cons : Text → Option Text) (s : Src) (σ : Store) (h : s.ModeHypC) (hk : s.CachedOK) (hs : s.SmallF)
+    (hn : s.ids.Nodup) (hc : Cold σ s.ids) (hW : s.strip.NestWD cons) (hz : s.strip.NestSized)
+    (hasc : ∀ n T, cons n = some T → IsAscii T ∧ T.length < USIZE_MAX) (f1 f2 : Bool)
+    (hsmall1 : ∀ m ∈ chunkMs (s.stream ⟨true, true⟩ σ).1.evs, m.small)
+    (hsmall2 : ∀ m ∈ chunkMs ((s.warm ⟨true, true⟩).stream ⟨true, true⟩ []).1.evs, m.small)
+    (sm1 sm2 : SMap) (h1 : (getMap s ⟨true, f1⟩ σ).1 = some sm1) (h2 : (getMap s ⟨true, f2⟩ (getMap s ⟨true, f1⟩ σ).2).1 = some sm2) :
+    ∀ (i : Nat) (o2 : Orig), (attrFrom (decode sm2.mappings) startPos s.src)[i]? = some (some o2) →
+      ∃ (o1 : Orig) (name T : Text), (attrFrom (decode sm1.mappings) startPos s.src)[i]? = some (some o1)
+        ∧ sm2.sources[o2.src]? = some name ∧ sm1.sources[o1.src]? = some name ∧ o2.line = o1.line ∧ o2.col = o1.col
+        ∧ sm1.sourcesContent[o1.src]? = some T
+        ∧ ((∃ q d, q + d < T.length ∧ adv startPos (T.take q) = ⟨o2.line, o2.col⟩ ∧ s.src[i]? = T[q + d]?
+              ∧ adv startPos (T.take (q + d)) = ⟨o2.line, o2.col + d⟩
+              ∧ ∃ tok k0 l0 c0, TokPos T tok l0 c0 k0 ∧ k0 ≤ q ∧ q + d < k0 + tok.length)
+            ∨ (∃ r ∈ s.strip.allReplsN, ∃ cl ∈ splitLines r.content, ∃ e, e < cl.length ∧ s.src[i]? = cl[e]?)) :=
+  nestTree_second_map_bytes cons s σ h hk hs hn hc hW hz hasc f1 f2 hsmall1 hsmall2 sm1 sm2 h1 h2
+
+/-- non-vacuity: `ConcatSource[CachedSource(OriginalSource("a;b", "f")), RawSource("x")]` has such a cache-free form -/
+example : (Src.concat (.cons (.cached 0 (.orig [97, 59, 98] [102])) (.cons (.rawStr [120]) .nil))).strip.NestWD
+    (fun n => if n = [102] then some [97, 59, 98] else none) := by
+  simp [Src.strip, SrcList.stripL, Src.NestWD, SrcList.NestWDs]
 
 end Rs
